@@ -518,6 +518,11 @@ func c43StreamPack(t *testing.T, rec *kit.Rec) {
 					continue
 				}
 				bad := damaged[b.BlobHandle] || inFailedRange(b)
+				if cancelled {
+					// after a cancellation the remaining blobs of a failed range are legitimately
+					// reported with the context error (the fallback loader refuses to work)
+					continue
+				}
 				switch {
 				case !bad && r.err != nil:
 					rec.Violation("intact-blob-delivered-as-error", fmt.Sprintf("%v is intact and its range loaded, but the callback got %v %s", b.BlobHandle, r.err, why), c)
